@@ -40,6 +40,8 @@ def valid(case):
 def decode_pairs(doc):
     """{'__pairs__': [[key, value], ...]} -> dict with (possibly non-string) keys in that insertion order"""
     if isinstance(doc, dict):
+        if set(doc) == {'__set__'}:
+            return set(doc['__set__'])                    # a YAML !!set of scalars
         if set(doc) == {'__pairs__'}:
             return {k: decode_pairs(v) for k, v in doc['__pairs__']}
         return {k: decode_pairs(v) for k, v in doc.items()}
